@@ -37,10 +37,15 @@ def make_copy():
 
 
 def run_pytest(root):
-    proc = subprocess.run(
-        [PY, '-m', 'pytest', '-q', '-x', '-p', 'no:cacheprovider', 'tests'],
-        cwd=root, capture_output=True, text=True, timeout=600,
-        env=dict(os.environ, PYTHONDONTWRITEBYTECODE='1'))
+    try:
+        proc = subprocess.run(
+            [PY, '-m', 'pytest', '-q', '-x', '-p', 'no:cacheprovider',
+             'tests'],
+            cwd=root, capture_output=True, text=True, timeout=180,
+            env=dict(os.environ, PYTHONDONTWRITEBYTECODE='1'))
+    except subprocess.TimeoutExpired:
+        # the edit makes the pinned suite hang: it does not "pass the tests"
+        return False, 'pinned suite hangs (timeout)'
     tail = proc.stdout.strip().splitlines()[-1:] or ['']
     return proc.returncode == 0, tail[0]
 
